@@ -301,6 +301,307 @@ theorem dispWith_some (v : M3 K) (px py pz : Bool) (a b : V3 K) :
     dispWith (some (v, px, py, pz)) a b = dvect v px py pz a b := rfl
 theorem dispWith_none (a b : V3 K) : dispWith (K := K) none a b = b - a := rfl
 
+
+/-! ### rows of the wrappers and of `System.dvect/dmag`: every row is a clause-satisfying separation of a
+    pair of selected points -/
+
+theorem broadcast_mem {α : Type} (a b : List α) (l : List (α × α)) (h : broadcast a b = some l) :
+    ∀ pq ∈ l, pq.1 ∈ a ∧ pq.2 ∈ b := by
+  unfold broadcast at h
+  split at h
+  · injection h with h; subst h
+    intro pq hpq
+    simp only [List.mem_map] at hpq
+    obtain ⟨y, hy, rfl⟩ := hpq
+    exact ⟨by simp, hy⟩
+  · injection h with h; subst h
+    intro pq hpq
+    simp only [List.mem_map] at hpq
+    obtain ⟨x, hx, rfl⟩ := hpq
+    exact ⟨hx, by simp⟩
+  · split at h
+    · injection h with h; subst h
+      intro pq hpq
+      exact ⟨(List.of_mem_zip hpq).1, (List.of_mem_zip hpq).2⟩
+    · cases h
+
+/-- whatever the broadcast shape (one-to-many, many-to-one, many-to-many): every row the wrapper returns is
+    `dvect` of a point of `pos_0` and a point of `pos_1`, hence an admissible image of their direct separation
+    and not longer than any of the 27 candidates. -/
+theorem dvectArr_rows (vects : M3 K) (px py pz : Bool) (as bs rows : List (V3 K))
+    (h : dvectArr vects px py pz as bs = some rows) :
+    ∀ r ∈ rows, ∃ p0 ∈ as, ∃ p1 ∈ bs, r = dvect vects px py pz p0 p1 ∧
+      (∃ n : Shift, n.admissible px py pz ∧ r = (p1 - p0) + latticeVec vects n) ∧
+      ∀ m : Shift, m.admissible px py pz → V3.normSq r ≤ V3.normSq ((p1 - p0) + latticeVec vects m) := by
+  unfold dvectArr at h
+  cases hb : broadcast as bs with
+  | none => rw [hb] at h; cases h
+  | some l =>
+    rw [hb] at h
+    simp only [Option.map_some, Option.some.injEq] at h
+    subst h
+    intro r hr
+    simp only [List.mem_map] at hr
+    obtain ⟨pq, hpq, rfl⟩ := hr
+    obtain ⟨h0, h1⟩ := broadcast_mem as bs l hb pq hpq
+    exact ⟨pq.1, h0, pq.2, h1, rfl, dvect_is_image vects px py pz pq.1 pq.2,
+      fun m hm => dvect_min27 vects px py pz pq.1 pq.2 m hm⟩
+
+theorem selectBoth_ok (atoms : List (V3 K)) (s0 s1 : Sel K) (a b : List (V3 K))
+    (h : selectBoth atoms s0 s1 = .ok (a, b)) : select atoms s0 = .ok a ∧ select atoms s1 = .ok b := by
+  unfold selectBoth at h
+  split at h
+  · rename_i x y hx hy
+    injection h with h
+    simp only [Prod.mk.injEq] at h
+    rw [hx, hy, h.1, h.2]
+    exact ⟨rfl, rfl⟩
+  · cases h
+  · cases h
+  · split at h
+    · cases h
+    · split at h <;> cases h
+
+/-- `System.dvect`: an accepted call returns the wrapper's rows for the two selections, squeezed exactly when
+    there is one row. -/
+theorem sysDvect_rows (atoms : List (V3 K)) (vects : M3 K) (px py pz : Bool) (s0 s1 : Sel K) (sq : Bool)
+    (rows : List (V3 K)) (h : sysDvect atoms vects px py pz s0 s1 = .ok (sq, rows)) :
+    ∃ a b, select atoms s0 = .ok a ∧ select atoms s1 = .ok b ∧ dvectArr vects px py pz a b = some rows ∧
+      sq = (rows.length == 1) := by
+  unfold sysDvect at h
+  cases hs : selectBoth atoms s0 s1 with
+  | error e => rw [hs] at h; cases h
+  | ok ab =>
+    obtain ⟨a, b⟩ := ab
+    rw [hs] at h
+    simp only [bind, Except.bind] at h
+    cases hd : dvectArr vects px py pz a b with
+    | none => rw [hd] at h; cases h
+    | some r =>
+      rw [hd] at h
+      simp only [pure, Except.pure, squeeze, Except.ok.injEq, Prod.mk.injEq] at h
+      obtain ⟨h1, h2⟩ := h
+      subst h2
+      obtain ⟨ha, hb⟩ := selectBoth_ok atoms s0 s1 a b hs
+      exact ⟨a, b, ha, hb, hd, h1.symm⟩
+
+/-- `System.dmag` is `System.dvect` followed by the length, row by row, same squeeze, same refusals. -/
+theorem sysDmag2_eq (atoms : List (V3 K)) (vects : M3 K) (px py pz : Bool) (s0 s1 : Sel K) :
+    sysDmag2 atoms vects px py pz s0 s1 =
+      (sysDvect atoms vects px py pz s0 s1).map fun r => (r.1, r.2.map V3.normSq) := by
+  unfold sysDmag2 sysDvect
+  cases hs : selectBoth atoms s0 s1 with
+  | error e => rfl
+  | ok ab =>
+    obtain ⟨a, b⟩ := ab
+    simp only [bind, Except.bind]
+    rw [dmag2Arr_eq]
+    cases hd : dvectArr vects px py pz a b with
+    | none => rfl
+    | some r => simp [pure, Except.pure, Except.map, squeeze]
+
+/-- the documented refusals of `displacement`: different numbers of atoms (for EVERY `box_reference`, a
+    one-atom system included — no broadcasting), and any `box_reference` other than the three keywords. -/
+theorem displacement_refuses (s0 s1 : Sys K) (ref : String) :
+    (s0.pos.length ≠ s1.pos.length → displacement s0 s1 ref = .error "value") ∧
+    (ref ≠ "final" → ref ≠ "initial" → ref ≠ "None" → displacement s0 s1 ref = .error "value") := by
+  constructor
+  · intro h; simp [displacement, h]
+  · intro h1 h2 h3
+    unfold displacement
+    split
+    · rfl
+    · simp [refBox, h1, h2, h3]
+
+/-! ### length scale: multiplying cell and points by any `c ≠ 0` multiplies the result by `c` -/
+
+def scaleV (c : K) (a : V3 K) : V3 K := ⟨c * a.x, c * a.y, c * a.z⟩
+def scaleM (c : K) (m : M3 K) : M3 K := ⟨scaleV c m.r0, scaleV c m.r1, scaleV c m.r2⟩
+
+theorem normSq_scaleV (c : K) (a : V3 K) : V3.normSq (scaleV c a) = c ^ 2 * V3.normSq a := by
+  simp only [V3.normSq, V3.dot, scaleV]; ring
+
+theorem shiftBy_scale (c : K) (V : M3 K) (d : V3 K) (s : Shift) :
+    shiftBy (scaleM c V) (scaleV c d) s = scaleV c (shiftBy V d s) := by
+  ext <;> simp only [shiftBy, scaleM, scaleV] <;> ring
+
+theorem fold_scale (c : K) (hc : c ≠ 0) (V : M3 K) (d0 : V3 K) (L : List Shift) (init : V3 K) :
+    L.foldl (dvectStep (scaleM c V) (scaleV c d0)) (scaleV c init) = scaleV c (L.foldl (dvectStep V d0) init) := by
+  induction L generalizing init with
+  | nil => rfl
+  | cons s L ih =>
+    simp only [List.foldl_cons]
+    have hstep : dvectStep (scaleM c V) (scaleV c d0) (scaleV c init) s = scaleV c (dvectStep V d0 init s) := by
+      rw [dvectStep_eq, dvectStep_eq, shiftBy_scale, normSq_scaleV, normSq_scaleV]
+      have hc2 : 0 < c ^ 2 := by positivity
+      by_cases hlt : V3.normSq (shiftBy V d0 s) < V3.normSq init
+      · rw [if_pos hlt, if_pos (mul_lt_mul_of_pos_left hlt hc2)]
+      · rw [if_neg hlt, if_neg (fun h => hlt (lt_of_mul_lt_mul_left h hc2.le))]
+    rw [hstep, ih]
+
+/-- no absolute length enters: an ångström cell written in metres gives the same separation, in metres. -/
+theorem dvect_scale (c : K) (hc : c ≠ 0) (vects : M3 K) (px py pz : Bool) (p0 p1 : V3 K) :
+    dvect (scaleM c vects) px py pz (scaleV c p0) (scaleV c p1) = scaleV c (dvect vects px py pz p0 p1) := by
+  have e : scaleV c p1 - scaleV c p0 = scaleV c (p1 - p0) := by
+    ext <;> simp only [sub_x, sub_y, sub_z, scaleV] <;> ring
+  simp only [dvect, e]
+  exact fold_scale c hc vects (p1 - p0) _ (p1 - p0)
+
+theorem dmag2_scale (c : K) (hc : c ≠ 0) (vects : M3 K) (px py pz : Bool) (p0 p1 : V3 K) :
+    dmag2 (scaleM c vects) px py pz (scaleV c p0) (scaleV c p1) = c ^ 2 * dmag2 vects px py pz p0 p1 := by
+  rw [dmag2_eq_normsq_dvect, dmag2_eq_normsq_dvect, dvect_scale c hc, normSq_scaleV]
+
+/-! ### objects with state: a query reads what the objects hold NOW, whatever the history -/
+
+namespace World
+
+/-- `System.dvect` reads the System's current positions and flags and its Box's current vectors, nothing else. -/
+theorem sysDvect_current (w : World K) (s : Nat) (v : Sys K) (hv : w.sysView s = some v) (s0 s1 : Sel K) :
+    w.sysDvect s s0 s1 = C02.sysDvect v.pos v.vects v.px v.py v.pz s0 s1 ∧
+    w.sysDmag2 s s0 s1 = C02.sysDmag2 v.pos v.vects v.px v.py v.pz s0 s1 := by
+  simp [World.sysDvect, World.sysDmag2, hv]
+
+/-- after ANY history of in-place changes, every row `System.dvect` returns is an admissible image (flags as they
+    are now) of the direct separation of two selected points under the cell as it is now, not longer than any of
+    the 27 candidates; and `System.dmag` returns the lengths of exactly these rows. -/
+theorem sysDvect_history (w : World K) (ops : List (Op K)) (w' : World K) (_hrun : w.run ops = some w')
+    (s : Nat) (s0 s1 : Sel K) (sq : Bool) (rows : List (V3 K)) (h : w'.sysDvect s s0 s1 = .ok (sq, rows)) :
+    ∃ v, w'.sysView s = some v ∧
+      w'.sysDmag2 s s0 s1 = .ok (sq, rows.map V3.normSq) ∧
+      ∀ r ∈ rows, ∃ p0 p1, (∃ n : Shift, n.admissible v.px v.py v.pz ∧ r = (p1 - p0) + latticeVec v.vects n) ∧
+        ∀ m : Shift, m.admissible v.px v.py v.pz → V3.normSq r ≤ V3.normSq ((p1 - p0) + latticeVec v.vects m) := by
+  cases hv : w'.sysView s with
+  | none => simp [World.sysDvect, hv] at h
+  | some v =>
+    obtain ⟨e1, e2⟩ := sysDvect_current w' s v hv s0 s1
+    rw [e1] at h
+    refine ⟨v, rfl, ?_, ?_⟩
+    · rw [e2, sysDmag2_eq, h]; rfl
+    · obtain ⟨a, b, _, _, hd, _⟩ := sysDvect_rows v.pos v.vects v.px v.py v.pz s0 s1 sq rows h
+      intro r hr
+      obtain ⟨p0, _, p1, _, _, him, hmin⟩ := dvectArr_rows v.vects v.px v.py v.pz a b rows hd r hr
+      exact ⟨p0, p1, him, hmin⟩
+
+/-- the module-level scalar distance with a Box OBJECT is, at any time, the length of the module-level separation
+    with the same object (no memory of an earlier call or an earlier cell). -/
+theorem arrDmag2_history (w : World K) (ops : List (Op K)) (w' : World K) (_hrun : w.run ops = some w')
+    (b : Nat) (px py pz : Bool) (as bs : List (V3 K)) :
+    w'.arrDmag2 b px py pz as bs = (w'.arrDvect b px py pz as bs).map (List.map V3.normSq) := by
+  unfold World.arrDmag2 World.arrDvect
+  cases w'.boxes[b]? with
+  | none => rfl
+  | some bx =>
+    simp only [dmag2Arr_eq]
+    cases dvectArr bx.vects px py pz as bs <;> rfl
+
+/-- `displacement` of two System objects is `displacement` of what they hold now. -/
+theorem disp_history (w : World K) (ops : List (Op K)) (w' : World K) (_hrun : w.run ops = some w')
+    (s0 s1 : Nat) (ref : String) (l : List (V3 K)) (h : w'.disp s0 s1 ref = .ok l) :
+    ∃ a b, w'.sysView s0 = some a ∧ w'.sysView s1 = some b ∧ displacement a b ref = .ok l := by
+  unfold World.disp at h
+  cases ha : w'.sysView s0 with
+  | none => simp [ha] at h
+  | some a =>
+    cases hb : w'.sysView s1 with
+    | none => simp [ha, hb] at h
+    | some b => simp only [ha, hb] at h; exact ⟨a, b, rfl, rfl, h⟩
+
+theorem getElem?_setAt {α : Type} (l l' : List α) (i : Nat) (a : α) (h : setAt l i a = some l') :
+    l'[i]? = some a ∧ (∀ j, j ≠ i → l'[j]? = l[j]?) ∧ l'.length = l.length := by
+  unfold setAt at h
+  split at h
+  · rename_i hi
+    injection h with h; subst h
+    exact ⟨List.getElem?_set_self hi, fun j hj => List.getElem?_set_ne (Ne.symm hj), by simp⟩
+  · cases h
+
+/-- `system.pbc[k] = flag` (in place): the very next read by `System.dvect/dmag` sees the new flag on axis `k`,
+    the other two flags, the cell and the positions as before. -/
+theorem pbcEdit_read (w w' : World K) (s k : Nat) (f : Bool) (v : Sys K) (hv : w.sysView s = some v)
+    (h : w.step (.pbcEdit s k f) = some w') :
+    ∃ v', w'.sysView s = some v' ∧ v'.vects = v.vects ∧ v'.pos = v.pos ∧
+      v'.px = (if k = 0 then f else v.px) ∧ v'.py = (if k = 1 then f else v.py) ∧ v'.pz = (if k = 2 then f else v.pz) := by
+  simp only [World.step, Option.bind_eq_bind] at h
+  cases hst : w.systems[s]? with
+  | none => simp [hst] at h
+  | some st =>
+    simp only [hst, Option.bind_some] at h
+    cases hf : st.setFlag k f with
+    | none => simp [hf] at h
+    | some st' =>
+      simp only [hf, Option.bind_some] at h
+      cases hss : setAt w.systems s st' with
+      | none => simp [hss] at h
+      | some ss =>
+        simp only [hss, Option.bind_some, Option.pure_def, Option.some.injEq] at h
+        subst h
+        obtain ⟨hget, _, _⟩ := getElem?_setAt _ _ _ _ hss
+        simp only [World.sysView, hst, Option.bind_eq_bind, Option.bind_some] at hv
+        cases hb : w.boxes[st.box]? with
+        | none => simp [hb] at hv
+        | some bx =>
+          simp only [hb, Option.bind_some, Option.pure_def, Option.some.injEq] at hv
+          subst hv
+          have hbox : st'.box = st.box ∧ st'.pos = st.pos ∧
+              st'.px = (if k = 0 then f else st.px) ∧ st'.py = (if k = 1 then f else st.py) ∧
+              st'.pz = (if k = 2 then f else st.pz) := by
+            unfold SysSt.setFlag at hf
+            split at hf <;> first | (injection hf with hf; subst hf; simp) | cases hf
+          refine ⟨⟨bx.vects, st'.px, st'.py, st'.pz, st'.pos⟩, ?_, rfl, hbox.2.1, hbox.2.2.1, hbox.2.2.2.1, hbox.2.2.2.2⟩
+          simp [World.sysView, hget, hbox.1, hb]
+
+/-- `B.vects = v` on a Box object: EVERY System holding that object reads the new vectors at its next query
+    (flags and positions untouched). -/
+theorem boxVects_shared (w w' : World K) (b : Nat) (v : M3 K) (h : w.step (.boxVects b v) = some w')
+    (t : Nat) (st : SysSt K) (ht : w.systems[t]? = some st) (hb : st.box = b) :
+    w'.sysView t = some ⟨v, st.px, st.py, st.pz, st.pos⟩ := by
+  simp only [World.step, Option.bind_eq_bind] at h
+  cases ho : w.boxes[b]? with
+  | none => simp [ho] at h
+  | some old =>
+    simp only [ho, Option.bind_some] at h
+    cases hbs : setAt w.boxes b ⟨v, old.origin⟩ with
+    | none => simp [hbs] at h
+    | some bs =>
+      simp only [hbs, Option.bind_some, Option.pure_def, Option.some.injEq] at h
+      subst h
+      obtain ⟨hget, _, _⟩ := getElem?_setAt _ _ _ _ hbs
+      simp [World.sysView, ht, hb, hget]
+
+/-- `S.box_set(vects=v, origin=o)` without `scale`: the Box object is changed in place, so every OTHER System
+    holding the same Box reads the new vectors too, with its own positions and flags. -/
+theorem sysBoxSet_shared (w w' : World K) (s : Nat) (v : M3 K) (o : V3 K)
+    (h : w.step (.sysBoxSet s v o false) = some w')
+    (st : SysSt K) (hs : w.systems[s]? = some st)
+    (t : Nat) (st' : SysSt K) (ht : w.systems[t]? = some st') (hb : st'.box = st.box) :
+    w'.sysView t = some ⟨v, st'.px, st'.py, st'.pz, st'.pos⟩ := by
+  simp only [World.step, Option.bind_eq_bind, hs, Option.bind_some] at h
+  cases ho : w.boxes[st.box]? with
+  | none => simp [ho] at h
+  | some old =>
+    simp only [ho, Option.bind_some] at h
+    cases hbs : setAt w.boxes st.box ⟨v, o⟩ with
+    | none => simp [hbs] at h
+    | some bs =>
+      simp only [hbs, Option.bind_some, Bool.false_eq_true, if_false, Option.pure_def, Option.some.injEq] at h
+      subst h
+      obtain ⟨hget, _, _⟩ := getElem?_setAt _ _ _ _ hbs
+      simp [World.sysView, ht, hb, hget]
+
+end World
+
+/-- the state theorems are not vacuous: a history with an in-place flag edit and a shared Box that is replaced,
+    after which the query follows the new flags and the new cell. -/
+example :
+    let w0 : World ℚ := World.empty
+    let ops : List (Op ℚ) := [.newBox ⟨⟨4, 0, 0⟩, ⟨0, 4, 0⟩, ⟨0, 0, 4⟩⟩ ⟨0, 0, 0⟩,
+      .newSys 0 true true true [⟨0, 0, 0⟩, ⟨3, 0, 0⟩], .newSys 0 false false false [⟨1, 1, 1⟩]]
+    (w0.run ops).map (fun w => w.sysDvect 0 (.idx 0) (.idx 1)) = some (.ok (true, [⟨-1, 0, 0⟩])) ∧
+    (w0.run (ops ++ [.pbcEdit 0 0 false])).map (fun w => w.sysDvect 0 (.idx 0) (.idx 1)) = some (.ok (true, [⟨3, 0, 0⟩])) ∧
+    (w0.run (ops ++ [.sysBoxSet 1 ⟨⟨2, 0, 0⟩, ⟨0, 4, 0⟩, ⟨0, 0, 4⟩⟩ ⟨0, 0, 0⟩ false])).map
+      (fun w => w.sysDvect 0 (.idx 0) (.idx 1)) = some (.ok (true, [⟨1, 0, 0⟩])) := by
+  decide +kernel
+
 /-! ### non-vacuity and sharpness (concrete rational instances) -/
 
 /-- a tilted cell. -/
